@@ -16,6 +16,7 @@ import (
 	"os/exec"
 	"path/filepath"
 	"regexp"
+	"runtime/pprof"
 	"sort"
 	"strconv"
 	"strings"
@@ -59,6 +60,11 @@ var (
 
 func main() {
 	flag.Parse()
+	if pf := os.Getenv("ZSYM_PROF"); pf != "" {
+		f, _ := os.Create(pf)
+		pprof.StartCPUProfile(f)
+		defer pprof.StopCPUProfile()
+	}
 	os.Setenv("GOFLAGS", "-mod=mod")
 	os.Setenv("GOPROXY", "off")
 	os.Setenv("GOSUMDB", "off")
@@ -70,7 +76,9 @@ func main() {
 		fmt.Fprintln(os.Stderr, "usage: zsym -prop Cxx [-tier quick|thorough]")
 		os.Exit(2)
 	}
-	os.Exit(run())
+	code := run()
+	pprof.StopCPUProfile()
+	os.Exit(code)
 }
 
 func harnessRoot() string { return filepath.Join(*flagVerif, "harness") }
